@@ -230,10 +230,12 @@ prop("C02", harness="h_exact",
 prop("C08", harness="h_exact",
      quick=dict(shards=16, cases=400, env={"VERIF_MAXN": "20"},
                 extra_phases=[dict(shards=16, cases=12, env={"VERIF_MAXN": "150", "VERIF_MAXM": "420"}, seed_offset=500),
-                              dict(shards=16, cases=60, env={"VERIF_PROFILE": "gnp-wide", "VERIF_MAXN": "26", "VERIF_MAXM": "140"}, seed_offset=550)]),
+                              dict(shards=16, cases=60, env={"VERIF_PROFILE": "gnp-wide", "VERIF_MAXN": "26", "VERIF_MAXM": "140"}, seed_offset=550),
+                              dict(shards=16, cases=6, env={"VERIF_PROFILE": "dense", "VERIF_MAXN": "23"}, seed_offset=600)]),
      thorough=dict(shards=16, cases=4000, env={"VERIF_MAXN": "36"},
                    extra_phases=[dict(shards=16, cases=150, env={"VERIF_MAXN": "400", "VERIF_MAXM": "1400"}, seed_offset=500),
-                                 dict(shards=16, cases=1000, env={"VERIF_PROFILE": "gnp-wide", "VERIF_MAXN": "40", "VERIF_MAXM": "200"}, seed_offset=550)]),
+                                 dict(shards=16, cases=1000, env={"VERIF_PROFILE": "gnp-wide", "VERIF_MAXN": "40", "VERIF_MAXM": "200"}, seed_offset=550),
+                                 dict(shards=16, cases=100, env={"VERIF_PROFILE": "dense", "VERIF_MAXN": "26"}, seed_offset=600)]),
      rule="Metamorphic, oracle-free for large graphs: a generated graph G and a generated transform T (vertex+edge-order permutation, isolated "
           "vertices, pendant trees, a bridge between two components, disjoint union with a second generated graph H, subdivision of edges with "
           "w=w1+w2 exactly, scaling by 2^j). Oracle: all six exact variants/backends (signed, fvs, iso and their _tbb forms on real libtbb with "
@@ -253,9 +255,11 @@ prop("C09", harness="h_exact",
 prop("C03", harness="h_sched",
      quick=dict(shards=16, cases=2500, env={"VERIF_MAXN": "12"},
                 extra_phases=[dict(shards=16, cases=200, env={"VERIF_MAXN": "30", "VERIF_MAXM": "90"}, seed_offset=400),
+                              dict(shards=16, cases=8, env={"VERIF_PROFILE": "dense", "VERIF_MAXN": "23"}, seed_offset=450),
                               dict(harness="h_sched_tsan", shards=8, cases=250, env={"VERIF_MAXN": "10", "TSAN_OPTIONS": "halt_on_error=1:exitcode=66:report_signal_unsafe=0"}, seed_offset=300)]),
      thorough=dict(shards=16, cases=20000, env={"VERIF_MAXN": "22"},
-                   extra_phases=[dict(harness="h_sched_tsan", shards=16, cases=2500, env={"VERIF_MAXN": "12", "TSAN_OPTIONS": "halt_on_error=1:exitcode=66:report_signal_unsafe=0"}, seed_offset=300)]),
+                   extra_phases=[dict(shards=16, cases=120, env={"VERIF_PROFILE": "dense", "VERIF_MAXN": "26"}, seed_offset=450),
+                                 dict(harness="h_sched_tsan", shards=16, cases=2500, env={"VERIF_MAXN": "12", "TSAN_OPTIONS": "halt_on_error=1:exitcode=66:report_signal_unsafe=0"}, seed_offset=300)]),
      rule="Generated graph x exact palette x the six *_tbb entry points (k in 1..4 for approximate) x a generated SCHEDULE TAPE interpreted by a "
           "drop-in mock of the used oneTBB subset (engine/mocktbb, first on the include path): any partition of each range into consecutive "
           "non-empty sub-ranges, any execution order, any grouping of consecutive sub-ranges into accumulation runs that start from a copy of the "
@@ -365,7 +369,8 @@ prop("C13", harness="h_comp",
      assumptions=["simple undirected graphs"])
 prop("C14", harness="h_comp",
      quick=dict(shards=16, cases=3000, env={"VERIF_MAXN": "12"},
-                extra_phases=[dict(shards=16, cases=150, env={"VERIF_MAXN": "30", "VERIF_MAXM": "90"}, seed_offset=400)]),
+                extra_phases=[dict(shards=16, cases=150, env={"VERIF_MAXN": "30", "VERIF_MAXM": "90"}, seed_offset=400),
+                              dict(shards=16, cases=25, env={"VERIF_MAXN": "100", "VERIF_MAXM": "220"}, seed_offset=450)]),
      thorough=dict(shards=16, cases=20000, env={"VERIF_MAXN": "20"},
                    extra_phases=[dict(shards=16, cases=1200, env={"VERIF_MAXN": "45", "VERIF_MAXM": "140"}, seed_offset=400)]),
      rule="Generated graphs x exact palettes x {double,int}; Horton, FVS and ISO builders called directly. Oracle per candidate: edge not a "
